@@ -256,12 +256,22 @@ func variantDesc(v Variant) string {
 func (e *Engine) verifyFunction(ct *Contract, prop string, tier string) *fnResult {
 	e.autoLoop = map[string][]int{}
 	e.autoCut = map[string]bool{}
+	e.autoOff = map[string]bool{}
 	var r *fnResult
 	for attempt := 0; attempt < 6; attempt++ {
 		e.autoCutWant = map[string]bool{}
 		r = e.verifyFunctionOnce(ct, prop, tier)
 		changed := false
 		for _, o := range r.Obls {
+			if strings.HasPrefix(o.ID, "auto:") && o.Status != "discharged" && strings.Contains(o.ID, "#nn:") {
+				// "auto:<loopkey>#nn:<variable>.<phase>": a non-nil candidate that is not inductive
+				id := strings.TrimSuffix(strings.TrimSuffix(o.ID[5:], ".entry"), ".preserved")
+				if !e.autoOff[id] {
+					e.autoOff[id] = true
+					changed = true
+				}
+				continue
+			}
 			if strings.HasPrefix(o.ID, "auto:") && o.Status != "discharged" {
 				// "auto:<loopkey>#<idx>.<phase>"
 				rest := o.ID[5:]
